@@ -43,3 +43,6 @@ add('C12', 'exploration', 'exhaustive enumeration of the full product of identif
 add('C13', 'exploration', 'exhaustive enumeration of six full products (WHERE extent, lists, calls, CASE, comparisons, typed literals) with ground truth from construction',
     'Six full products whose expected node texts are known from how each input was built; Where / IdentifierList.get_identifiers / Function.get_parameters / Case.get_cases / Comparison.left,right / TypedLiteral are compared with the written parts on every case. Exhaustive (full products).',
     'Trusted: CPython; the item, condition, operand and argument forms listed in checks/c13.py as the grammar.', 'DESIGN.md 4/C13')
+add('C18', 'exploration', 'exhaustive enumeration of the full product head keyword x prefix x casing x continuation (+ WITH/CTE forms)',
+    'Every single-word DML/DDL keyword of the nine tables, CREATE OR REPLACE under every inner-whitespace spelling, non-DML heads and WITH [RECURSIVE] statements with 1-3 CTEs, crossed with 13 whitespace/comment prefixes, 4 casings and 31 continuations; get_type() is compared with the written head. Exhaustive (full product).',
+    'Trusted: CPython; head words are read from the keyword tables of the tree under test.', 'DESIGN.md 4/C18')
